@@ -373,7 +373,23 @@ def runtime_object(cc: str, flags: Sequence[str]) -> str:
 
 
 class CConfig:
-    def __init__(self, cc: str = "gcc", opt: str = "-O0", sanitize: bool = False, big_endian: bool = False, single_tu: bool = False, cxx_driver: bool = False, extra: Sequence[str] = ()):
+    def __init__(
+        self,
+        cc: str = "gcc",
+        opt: str = "-O0",
+        sanitize: bool = False,
+        big_endian: bool = False,
+        single_tu: bool = False,
+        cxx_driver: bool = False,
+        extra: Sequence[str] = (),
+        pre_includes: Sequence[str] = (),
+        lib_std: str = "",
+    ):
+        # extra: flags given to EVERY translation unit (ABI-neutral or ABI-consistent: -funsigned-char, -fshort-enums, ...)
+        # pre_includes: libc headers a user's file may include before the runtime (first lines of a single TU; -include otherwise)
+        # lib_std: language standard for the runtime and the generated files only (the driver needs GNU extensions)
+        self.pre_includes = list(pre_includes)
+        self.lib_std = lib_std
         self.cc = cc
         self.opt = opt
         self.sanitize = sanitize
@@ -391,8 +407,18 @@ class CConfig:
         f += self.extra
         return f
 
+    def lib_flags(self) -> List[str]:
+        """Additional flags for the runtime and the generated files when they are translation units of their own."""
+        f: List[str] = []
+        for h in self.pre_includes:
+            f += ["-include", h]
+        if self.lib_std:
+            f.append(self.lib_std)
+        return f
+
     def tag(self) -> str:
-        return f"{self.cc}{self.opt}{'-san' if self.sanitize else ''}{'-be' if self.big_endian else ''}{'-1tu' if self.single_tu else ''}{'-cxx' if self.cxx_driver else ''}"
+        more = "".join("," + x for x in self.extra) + "".join(",<" + h + ">" for h in self.pre_includes) + ("," + self.lib_std if self.lib_std else "")
+        return f"{self.cc}{self.opt}{'-san' if self.sanitize else ''}{'-be' if self.big_endian else ''}{'-1tu' if self.single_tu else ''}{'-cxx' if self.cxx_driver else ''}{more}"
 
     def __repr__(self) -> str:
         return self.tag()
@@ -436,6 +462,8 @@ class CDriver:
         if cfg.single_tu:
             one = os.path.join(self.dir, "all.c")
             with open(one, "w") as f:
+                for h in cfg.pre_includes:
+                    f.write(f"#include <{h}>\n")  # a user's own includes come first in a unity build
                 f.write(f'#include "{os.path.join(env.CLIB_DIR, "bitproto.c")}"\n')
                 for c in cfiles:
                     f.write(f'#include "{c}"\n')
@@ -450,10 +478,11 @@ class CDriver:
             else:
                 _run([cfg.cc, "-std=gnu11", "-w", *flags, *inc, one, "-o", self.exe], what="compile generated C (single TU)")
             return
-        objs = [runtime_object(cfg.cc, flags)]
+        lib = cfg.lib_flags()
+        objs = [runtime_object(cfg.cc, [*flags, *lib])]
         for c in cfiles:
             o = os.path.join(self.dir, os.path.basename(c)[:-2] + ".o")
-            _run([cfg.cc, "-c", "-std=gnu11", "-w", *flags, *inc, c, "-o", o], what=f"compile generated {os.path.basename(c)}")
+            _run([cfg.cc, "-c", "-std=gnu11", "-w", *flags, *lib, *inc, c, "-o", o], what=f"compile generated {os.path.basename(c)}")
             objs.append(o)
         dobj = os.path.join(self.dir, "drv.o")
         if cfg.cxx_driver:
